@@ -160,6 +160,16 @@ def getN (numEndpoints : Nat) (ring : List (Sec × List Nat)) (v n : Nat) : Get 
 def simpleGetN (len v n : Nat) : Get :=
   if len ≤ n then .insufficient else .node (((v + n) % 2 ^ 64) % len)
 
+/-- Can `rf` replicas be placed zone-balanced on zones of the given sizes (numbers of distinct
+    endpoints)?  With at most one zone the zone rule is off: `rf ≤ n`.  Otherwise the loop fills
+    the zones evenly until the smallest zone (size `m`) is exhausted, after which every other
+    zone can take one more replica: `rf ≤ Σ min(size, m+1)`. -/
+def canBalance (sizes : List Nat) (rf : Nat) : Bool :=
+  if sizes.length ≤ 1 then decide (rf ≤ sizes.sum)
+  else
+    let m := sizes.foldl min (sizes.headD 0)
+    decide (rf ≤ (sizes.map fun s => min s (m + 1)).sum)
+
 /-- where `GetN` starts for a series with hash `v`: the suffix of the ring beginning at the first
     section whose hash is `≥ v`, the whole ring when there is none (`i == numSections → i = 0`) -/
 def searchSuffix (v : Nat) (ring : List Sec) : List Sec :=
